@@ -42,7 +42,7 @@ PROPS = {
     },
     "C04": {
         "level": "exploration",
-        "rule": "cases = (graph, presentation, DC/DS problem, encoder, argument) through the *_with_certificate entry points. Non-trivial: a certificate was due (YES-credulous / NO-skeptical) and the framework has >= 2 components or sparse ids, so the certificate had to be completed on untouched components / mapped back by label; distinct by canonical hash.",
+        "rule": "cases = (graph, presentation, DC/DS problem, encoder, argument) through the *_with_certificate entry points. Non-trivial: a certificate was due (YES-credulous / NO-skeptical) and the framework has >= 2 components or sparse ids, so the certificate had to be completed on untouched components / mapped back by label; distinct by canonical hash. Command-line part: every argument of 20 (quick) / 300 (thorough) frameworks per family x every DC/DS problem with -c x every --encoding value; the printed certificate is judged. A query whose SAT calls span more than 40 s of wall-clock time is abandoned (counted, not an evaluation).",
         "assumptions": ORACLE_ASSUMPTIONS,
         "thresholds": {
             "quick": {"evaluations": 50000, "distinct_nontrivial": 5000,
@@ -53,7 +53,7 @@ PROPS = {
     },
     "C07": {
         "level": "exploration",
-        "rule": "cases = (graph, DC/DS problem of each static solver type, encoder, list of 1-3 arguments with repetitions, with/without certificate); all lists on graphs of <= 4 arguments, sampled lists biased to different components otherwise. Non-trivial: the list is not a single argument; distinct by canonical hash of (graph, problem, encoder, list). Every list class (same component, different components, mutually attacking, contains a self-attacker, duplicates) must be reached.",
+        "rule": "cases = (graph, DC/DS problem of each static solver type, encoder, list of 1-3 arguments with repetitions, with/without certificate); all lists on graphs of <= 4 arguments, sampled lists biased to different components otherwise. Non-trivial: the list is not a single argument; distinct by canonical hash of (graph, problem, encoder, list). Every list class (same component, different components, mutually attacking, contains a self-attacker, duplicates) must be reached. Also frameworks of 66-140 arguments (unions of small components that all have stable extensions) and lists with two arguments 8/16/32/64/128 positions apart.",
         "assumptions": ORACLE_ASSUMPTIONS,
         "thresholds": {
             "quick": {"evaluations": 100000, "distinct_nontrivial": 20000,
@@ -153,7 +153,7 @@ NOT_APPLICABLE[:] = [e for e in NOT_APPLICABLE if e["property_id"] not in ("C08"
 
 PROPS["C12"] = {
     "level": "exploration",
-    "rule": "cases = update histories (5-60 operations, 2000 in thorough) over 3-6 labels plus one never-declared label, for AAFramework<usize>, AAFramework<String> (empty start or new_with_labels start) and LabelSet; weighted to self-attacks, repeated operations, removal of arguments carrying self + in + out attacks, re-insertion. After EVERY operation all public observables (counts, iter_attacks, per-argument iter_attacks_from/to as multisets, argument iteration with ids, get_argument, has_argument_with_id, is_empty, max id >= live ids) are compared with a set model; invalid/redundant operations must leave the snapshot unchanged. Non-trivial: the history contains at least one removal; distinct = hash of the operation list.",
+    "rule": "cases = update histories (5-60 operations, 2000 in thorough) over 3-6 labels plus one never-declared label, for AAFramework<usize>, AAFramework<String> (empty start or new_with_labels start) and LabelSet; weighted to self-attacks, repeated operations, removal of arguments carrying self + in + out attacks, re-insertion. After EVERY operation all public observables (counts, iter_attacks, per-argument iter_attacks_from/to as multisets, argument iteration with ids, get_argument, has_argument_with_id, is_empty, max id >= live ids) are compared with a set model; invalid/redundant operations must leave the snapshot unchanged. Non-trivial: the history contains at least one removal; distinct = hash of the operation list. Further start state: an ArgumentSet with a history of its own (withdrawals anywhere in the order) wrapped by new_with_argument_set; wide-hub shape (34-90 arguments, in/out lists of 16-64+ entries, single attacks withdrawn and put back); grounded_extension() compared with the least fixed point computed on the set model after every other operation and every removal.",
     "assumptions": ["the set model in harness/src/props/store_io.rs (labels -> id given at creation, set of attack pairs) implements the specified semantics", "only public observables are compared; internal index vectors are not inspected"],
     "thresholds": {
         "quick": {"evaluations": 500000, "distinct_nontrivial": 10000,
@@ -216,7 +216,7 @@ PROPS["C15"] = {
 }
 PROPS["C16"] = {
     "level": "exploration",
-    "rule": "cases = (a) every DIMACS instance sent to the strict monitor solver msat by real argumentation queries (all non-grounded problems, selectable encoders, with/without certificate, 1-2 arguments) on frameworks of <= 8 arguments: header variable count >= every variable, exact clause count, no syntax error (msat's log is checked after every query); (b) direct ExternalSatSolver calls run in a sub-process on unique-model / contradictory CNFs with reply volumes 0, 1 KiB, 60-70 KiB in 1 KiB steps, 256 KiB, 4 MiB of comments before or after the verdict, models of 15-22k variables, requests above 64 KiB, v-line splits 1/10/all, CRLF; (c) child-side schedules early-out / slow-read / no-read / close-stdout-early; (d) ten malformed-reply kinds. A call that does not return within the watchdog is a violation only with a /proc deadlock witness (parent in wait4, child blocked writing to the pipe, no I/O progress), else inconclusive. Non-trivial: exchange bucket x size x options, or query with >= 2 SAT calls; distinct by hash.",
+    "rule": "cases = (a) every DIMACS instance sent to the strict monitor solver msat by real argumentation queries (all non-grounded problems, selectable encoders, with/without certificate, 1-2 arguments) on frameworks of <= 8 arguments: header variable count >= every variable, exact clause count, no syntax error (msat's log is checked after every query); (b) direct ExternalSatSolver calls run in a sub-process on unique-model / contradictory CNFs with reply volumes 0, 1 KiB, 60-70 KiB in 1 KiB steps, 256 KiB, 4 MiB of comments before or after the verdict, models of 15-22k variables, requests above 64 KiB, v-line splits 1/10/all, CRLF; (c) child-side schedules early-out / slow-read / no-read / close-stdout-early; (d) ten malformed-reply kinds. A call that does not return within the watchdog is a violation only with a /proc deadlock witness (parent in wait4, child blocked writing to the pipe, no I/O progress), else inconclusive. Non-trivial: exchange bucket x size x options, or query with >= 2 SAT calls; distinct by hash. The exit status of the solver process is a parameter (10/20 convention or fixed values) on nearly half of the exchanges; two malformed replies are not UTF-8 (garbage line; value line torn by a stray byte).",
     "assumptions": ["msat validates DIMACS strictly and answers honestly unless told otherwise; kissat not used here", "the schedule of the feeder thread is steered only from the child side (read/write order, delays)", "Linux pipe capacity 64 KiB"],
     "thresholds": {
         "quick": {"evaluations": 10000, "distinct_nontrivial": 3000,
@@ -228,7 +228,7 @@ PROPS["C16"] = {
 }
 PROPS["C17"] = {
     "level": "fault_enumeration",
-    "rule": "cases = (framework, problem, encoder, query, fault kind, SAT-call position j): the query is first run fault-free to learn its number k of SAT calls, then re-run once per position j in 1..k (all of them up to 60) with `Unknown` injected by the SAT-boundary monitor; for the external path msat misbehaves at invocation j (exit-silent, status-only, truncated-model, cut mid-number, garbage line, unknown status, wrong variable, double status, crash mid-output, non-zero exit) for static solvers and the CLI (`crustabri solve --external-sat-solver msat`); dynamic solvers on 10-step histories. A run in which the injected position was not reached is inconclusive. Non-trivial: k >= 2 and j >= 2 (failure inside an enumeration loop); distinct = hash of (graph, problem, encoder, query, kind, j).",
+    "rule": "cases = (framework, problem, encoder, query, fault kind, SAT-call position j): the query is first run fault-free to learn its number k of SAT calls, then re-run once per position j in 1..k (all of them up to 60) with `Unknown` injected by the SAT-boundary monitor; for the external path msat misbehaves at invocation j (exit-silent, status-only, truncated-model, cut mid-number, garbage line, unknown status, wrong variable, double status, crash mid-output, non-zero exit) for static solvers and the CLI (`crustabri solve --external-sat-solver msat`); dynamic solvers on 10-step histories. A run in which the injected position was not reached is inconclusive. Non-trivial: k >= 2 and j >= 2 (failure inside an enumeration loop); distinct = hash of (graph, problem, encoder, query, kind, j). One CLI instance file in seven is 1-3 MiB; half of the external faults come with a solver-like exit status (10/20).",
     "assumptions": ["a query that unwinds (panic) or a process that exits non-zero without an answer-shaped stdout line counts as aborted", "fault positions are enumerated per case, cases are sampled"],
     "thresholds": {
         "quick": {"evaluations": 30000, "distinct_nontrivial": 10000,
@@ -256,7 +256,7 @@ NOT_APPLICABLE[:] = [e for e in NOT_APPLICABLE if e["property_id"] not in ("C15"
 
 PROPS["C10"] = {
     "level": "translation_validation",
-    "rule": "programs = the CNFs actually emitted by each encoder (aux_var cf/adm/complete, exp cf/complete, hybrid, stable; plain and with range variables) into a recording SatSolver, for frameworks with compact ids built through both readers (incl. permuted and repeated attack lines), new_with_labels and the plain API: all digraphs on <= 3 (thorough: 4) arguments, random graphs n <= 9, lattice/dense shapes, shared-defender shapes with defender-set products 30/32/33/36/64 (both sides of the hybrid threshold, n <= 16). Each CNF is validated exhaustively: for EVERY subset S of the arguments, CNF + (argument literals fixed to S) is satisfiable (independent DPLL) iff S is in the intended family (brute-force oracle); with range: a model with r = range(S) exists and no model has r_a true outside range(S); arg_to_lit positive, injective, within n_vars, outside the range block; assignment_to_extension decodes exactly S and ignores auxiliary/range variables. Non-trivial: the family differs from the power set and from {empty set}; distinct = hash of (graph, presentation kind, encoder).",
+    "rule": "programs = the CNFs actually emitted by each encoder (aux_var cf/adm/complete, exp cf/complete, hybrid, stable; plain and with range variables) into a recording SatSolver, for frameworks with compact ids built through both readers (incl. permuted and repeated attack lines), new_with_labels and the plain API: all digraphs on <= 3 (thorough: 4) arguments, random graphs n <= 9, lattice/dense shapes, shared-defender shapes with defender-set products 30/32/33/36/64 (both sides of the hybrid threshold, n <= 16). Each CNF is validated exhaustively: for EVERY subset S of the arguments, CNF + (argument literals fixed to S) is satisfiable (independent DPLL) iff S is in the intended family (brute-force oracle); with range: a model with r = range(S) exists and no model has r_a true outside range(S); arg_to_lit positive, injective, within n_vars, outside the range block; assignment_to_extension decodes exactly S and ignores auxiliary/range variables. Non-trivial: the family differs from the power set and from {empty set}; distinct = hash of (graph, presentation kind, encoder). Also fan-in frameworks (arguments with 31-40 attackers next to defender-set products of 32 and more) and huge-product frameworks (65 536 - 390 625 product clauses of the exp encoder), judged by the SAT-based oracle.",
     "assumptions": ["the harness DPLL decides each restricted CNF (cross-checked with a truth table in its unit test)", "brute-force families (conflict-free, admissible, complete, stable) of harness/src/refsem.rs", "compact-id frameworks from the readers stand in for the solvers' crate-private component extraction (same construction: ids 0..n, attacks inserted by id, duplicates kept); CNFs of real extracted components are additionally validated model-by-model by the SAT-boundary monitor in C01-C04"],
     "coverage_extra": lambda a: {"programs": a["counters"].get("cnfs_validated", 0),
                                  "disagreements_checked": a["evaluations"],
@@ -310,7 +310,7 @@ NOT_APPLICABLE[:] = [e for e in NOT_APPLICABLE if e["property_id"] not in ("C18"
 
 PROPS["C06"] = {
     "level": "exploration",
-    "rule": "cases = (framework, problem, query) evaluated under a lattice of configurations: every selectable encoder x {embedded CaDiCaL, harness DPLL backend, ExternalSatSolver->msat, ExternalSatSolver->kissat} x {with, without certificate}, as a star around the reference configuration plus random combinations; all statuses (for SE: extension / no extension) must be equal to each other and to the oracle. One solver object per type receives a random sequence with repetitions of SE/DC/DS queries with and without certificate and each answer is compared with a fresh object's; the framework's public observables are compared before and after all queries. A subset goes through `crustabri solve --encoding X --external-sat-solver Y [-c]`. Non-trivial: the reference run needed >= 2 SAT calls or the framework has >= 2 components, or a query sequence of length >= 4; distinct = hash of (graph, presentation kind, problem, query | sequence).",
+    "rule": "cases = (framework, problem, query) evaluated under a lattice of configurations: every selectable encoder x {embedded CaDiCaL, harness DPLL backend, ExternalSatSolver->msat, ExternalSatSolver->kissat} x {with, without certificate}, as a star around the reference configuration plus random combinations; all statuses (for SE: extension / no extension) must be equal to each other and to the oracle. One solver object per type receives a random sequence with repetitions of SE/DC/DS queries with and without certificate and each answer is compared with a fresh object's; the framework's public observables are compared before and after all queries. A subset goes through `crustabri solve --encoding X --external-sat-solver Y [-c]`. Non-trivial: the reference run needed >= 2 SAT calls or the framework has >= 2 components, or a query sequence of length >= 4; distinct = hash of (graph, presentation kind, problem, query | sequence). CLI sweep: on frameworks of at most six arguments every acceptance problem x every argument under {embedded, msat, kissat} x {status only, -c}.",
     "assumptions": ORACLE_ASSUMPTIONS + ["external backends: msat (strict, CaDiCaL-backed) and kissat; a third, pure-Rust DPLL backend of the harness widens the differential"],
     "thresholds": {
         "quick": {"evaluations": 200000, "distinct_nontrivial": 20000,
@@ -350,7 +350,7 @@ NOT_APPLICABLE[:] = [e for e in NOT_APPLICABLE if e["property_id"] not in ("C11"
 
 PROPS["C05"] = {
     "level": "exploration",
-    "rule": "cases = real process runs of `crustabri solve` and of the ICCMA'23 wrapper. Success path: generated instance files in both formats (comments, CRLF, duplicate declarations, surrounding spaces, Aspartix names different from ranks, n = 0) x all 21 problems (random letter case) x arguments x {reader flag, --encoding none/aux_var/exp/hybrid, -c / --with-certificate, --logging-level off/info}: exit status 0, stdout (log lines starting with `![` removed when logging is on) exactly the status line and/or one witness line in the writer's grammar, status equal to the brute-force oracle, witness a valid extension with respect to the argument. Error path: 20 kinds of malformed invocation (missing -f/-p, missing/unreadable file, directory, ill-formed file of each listed category, unknown or garbled problem strings, DC/DS without -a, unknown / 0 / n+1 / non-numeric / empty argument, unknown option, bad reader, bad encoding, wrong reader for the file, unknown sub-command): non-zero exit status and no answer-shaped stdout line. `problems` / `--problems`: exactly the 21 problems, each accepted in any letter case, unlisted strings rejected. Non-trivial: an instance with an argument that is credulously but not skeptically accepted or without stable extension; or a distinct (binary, error kind, arguments) error run; distinct by hash.",
+    "rule": "cases = real process runs of `crustabri solve` and of the ICCMA'23 wrapper. Success path: generated instance files in both formats (comments, CRLF, duplicate declarations, surrounding spaces, Aspartix names different from ranks, n = 0) x all 21 problems (random letter case) x arguments x {reader flag, --encoding none/aux_var/exp/hybrid, -c / --with-certificate, --logging-level off/info}: exit status 0, stdout (log lines starting with `![` removed when logging is on) exactly the status line and/or one witness line in the writer's grammar, status equal to the brute-force oracle, witness a valid extension with respect to the argument. Error path: 20 kinds of malformed invocation (missing -f/-p, missing/unreadable file, directory, ill-formed file of each listed category, unknown or garbled problem strings, DC/DS without -a, unknown / 0 / n+1 / non-numeric / empty argument, unknown option, bad reader, bad encoding, wrong reader for the file, unknown sub-command): non-zero exit status and no answer-shaped stdout line. `problems` / `--problems`: exactly the 21 problems, each accepted in any letter case, unlisted strings rejected. Non-trivial: an instance with an argument that is credulously but not skeptically accepted or without stable extension; or a distinct (binary, error kind, arguments) error run; distinct by hash. Also: one run in five with --external-sat-solver (msat / kissat -q); problem strings that only look like a listed problem (Unicode case mappings, compatibility forms, look-alikes, other dashes) must be rejected; instance paths through `.`, `sub/..` and a symbolic link to a directory followed by `..` (with a decoy at the lexical location); witness lines of 3 000 - 13 000 arguments in both formats.",
     "assumptions": ["brute-force oracle on the file's abstract framework (n <= 9)", "answer-shaped line = ^(YES|NO|w( \\S+)*|\\[[^\\]]*\\])$; `-h`, no argument at all (authors), a superfluous -a for SE problems and --encoding on GR/ST are documented non-errors and are not in the error matrix", "the binaries are the plain `cargo build --release` of /repo's working tree"],
     "thresholds": {
         "quick": {"evaluations": 8000, "distinct_nontrivial": 500,
